@@ -155,7 +155,7 @@ def _max(eng: Any, *args: Any, **kwargs: Any) -> Any:
 
 @model(builtins.len)
 def _len(eng: Any, v: Any) -> Any:
-    if isinstance(v, SList):
+    if isinstance(v, (SList, SBytes)):
         return len(v.items)
     if isinstance(v, SDict):
         return len(v.items)
